@@ -526,3 +526,46 @@ def _called_in_place(loop, lam):
         if isinstance(x, _ast.Call) and x.func is lam:
             return True
     return False
+
+
+def prepare_each_state(ix, R, oid):
+    """model_full_contrib() calls prepare_each() directly and integrates after each yield, so whatever contribute()
+    reads and the base prepare() would set (grid size, layer count) has to be set by prepare_each() too - otherwise the
+    component is computed with the values of the previous evaluation (another grid)."""
+    import ast
+    base = ix.find_class('Contribution')
+    pes = ix.implementations(base, 'prepare_each')
+    # what contribute() reads besides sigma_xsec and that the base prepare() sets for it (grid size, layer count):
+    # model_full_contrib() calls prepare_each() directly, so prepare_each() has to set it too
+    bp = ix.lookup_method(base, 'prepare')
+    base_sets = {t.attr for n_ in ast.walk(bp.node) if isinstance(n_, ast.Assign) for t in n_.targets
+                 if isinstance(t, ast.Attribute) and isinstance(t.value, ast.Name) and t.value.id == 'self'}
+    for f in pes:
+        if f.cls is base:
+            continue
+        con = ix.lookup_method(f.cls, 'contribute')
+        reads = {x.attr for x in ast.walk(con.node) if isinstance(x, ast.Attribute) and isinstance(x.ctx, ast.Load) and
+                 isinstance(x.value, ast.Name) and x.value.id == 'self'}
+        # arguments of logging calls do not count
+        for n_ in ast.walk(con.node):
+            if isinstance(n_, ast.Call) and isinstance(n_.func, ast.Attribute) and n_.func.attr in ('debug', 'info', 'warning', 'error'):
+                loud = {x.attr for a_ in n_.args for x in ast.walk(a_) if isinstance(x, ast.Attribute)}
+                other = {x.attr for m_ in ast.walk(con.node) if isinstance(m_, ast.Call) and m_ is not n_ and not (
+                    isinstance(m_.func, ast.Attribute) and m_.func.attr in ('debug', 'info', 'warning', 'error'))
+                    for a_ in list(m_.args) + [k.value for k in m_.keywords] for x in ast.walk(a_) if isinstance(x, ast.Attribute)}
+                other |= {x.attr for m_ in ast.walk(con.node) if isinstance(m_, (ast.AugAssign, ast.Assign))
+                          for x in ast.walk(m_) if isinstance(x, ast.Attribute)}
+                reads = (reads - loud) | (reads & other)
+        needed = sorted((reads & base_sets) - {'sigma_xsec'})
+        ys_ = [n_ for n_ in ast.walk(f.node) if isinstance(n_, (ast.Yield, ast.YieldFrom))]
+        first = min(n_.lineno for n_ in ys_) if ys_ else 10 ** 9
+        sets = {t.attr for st_ in f.body() if isinstance(st_, ast.Assign) and st_.lineno < first for t in st_.targets
+                if isinstance(t, ast.Attribute) and isinstance(t.value, ast.Name) and t.value.id == 'self'}
+        missing = [a_ for a_ in needed if a_ not in sets]
+        R.check(oid, 'DOM', f.site,
+                'prepare_each() itself sets what %s.contribute() reads and prepare() would otherwise set (%s)' % (
+                    con.cls.name if con.cls else '?', ', '.join(needed) or 'nothing'),
+                not missing, key='not set: %s' % missing,
+                detail='%s.contribute() reads self.%s, which only prepare() sets; model_full_contrib() calls prepare_each() '
+                       'directly and then integrates, so the value of an earlier evaluation (another grid) is used' % (
+                           con.cls.name if con.cls else '?', ', self.'.join(missing)), loc=f.loc())
